@@ -243,3 +243,97 @@ Proof.
   rewrite Hc' in S1, S2. cbn [fst snd] in S1, S2. split; [exact S1|]. split; [now rewrite S2, S0|].
   destruct (live_reread true l' Hw') as (t'' & P & _ & S'' & _). exists t''. split; [exact P|]. rewrite S'', Hc'. reflexivity.
 Qed.
+
+(* ------------------------------------------------------------------ the operand texts are ALL the texts from_str accepts *)
+Lemma comma_ws_not_entry w : Forall (fun x => is_entry x = false) (Tok COMMA [44%N] :: elems w).
+Proof. constructor; [reflexivity|apply elems_not_entry]. Qed.
+Lemma option_map_none {A B} (f : A -> B) o : option_map f o = None -> o = None.
+Proof. now destruct o. Qed.
+Lemma items_no_entry : forall more i, aitem_ok false i = true -> forallb (amore_ok false) more = true ->
+  nth_index is_entry 0 (aitems_elems i more) = None -> i = AEmpty /\ exists post, more = map emp post.
+Proof.
+  induction more as [|[w i'] more' IH]; intros i Hi Hm Hn; (destruct i as [r alts|body tr|]; [rewrite aitems_elems_eq in Hn; discriminate Hn|discriminate Hi|]).
+  - split; [reflexivity|]. now exists [].
+  - change (aitems_elems AEmpty ((w, i') :: more')) with ((Tok COMMA [44%N] :: elems w) ++ aitems_elems i' more') in Hn.
+    rewrite nth_index_skip_false in Hn by apply comma_ws_not_entry. apply option_map_none in Hn.
+    cbn [forallb] in Hm. apply andb_prop in Hm as [Hm1 Hm2]. unfold amore_ok in Hm1. cbn [fst snd] in Hm1. apply andb_prop in Hm1 as [_ Hm1].
+    destruct (IH i' Hm1 Hm2 Hn) as (-> & post & ->). split; [reflexivity|]. now exists (w :: post).
+Qed.
+Lemma items_one_entry : forall more i, aitem_ok false i = true -> forallb (amore_ok false) more = true ->
+  nth_index is_entry 0 (aitems_elems i more) <> None -> nth_index is_entry 1 (aitems_elems i more) = None ->
+  (exists r alts post, i = AEntry r alts /\ more = map emp post) \/
+  (i = AEmpty /\ exists w pre r alts post, more = place w pre (AEntry r alts) (map emp post)).
+Proof.
+  induction more as [|[w i'] more' IH]; intros i Hi Hm H0 H1; (destruct i as [r alts|body tr|]; [|discriminate Hi|]).
+  - left. exists r, alts, []. auto.
+  - exfalso. apply H0. reflexivity.
+  - left. cbn [forallb] in Hm. apply andb_prop in Hm as [Hm1 Hm2]. unfold amore_ok in Hm1. cbn [fst snd] in Hm1. apply andb_prop in Hm1 as [_ Hm1].
+    rewrite aitems_elems_eq in H1. cbn [aitem_elems more_elems is_nil app] in H1.
+    cbn [nth_index] in H1. change (is_entry (Node ENTRY (arels_elems r alts false))) with true in H1. cbn iota in H1.
+    apply option_map_none in H1. rewrite nth_index_skip_false in H1 by apply elems_not_entry. apply option_map_none in H1.
+    change (Tok COMMA [44%N] :: elems w ++ aitems_elems i' more') with ((Tok COMMA [44%N] :: elems w) ++ aitems_elems i' more') in H1.
+    rewrite nth_index_skip_false in H1 by apply comma_ws_not_entry.
+    apply option_map_none in H1. destruct (items_no_entry more' i' Hm1 Hm2 H1) as (-> & post & ->).
+    exists r, alts, (w :: post). auto.
+  - right. split; [reflexivity|]. cbn [forallb] in Hm. apply andb_prop in Hm as [Hm1 Hm2]. unfold amore_ok in Hm1. cbn [fst snd] in Hm1. apply andb_prop in Hm1 as [_ Hm1].
+    change (aitems_elems AEmpty ((w, i') :: more')) with ((Tok COMMA [44%N] :: elems w) ++ aitems_elems i' more') in H0, H1.
+    rewrite nth_index_skip_false in H0, H1 by apply comma_ws_not_entry. apply option_map_none in H1.
+    assert (H0' : nth_index is_entry 0 (aitems_elems i' more') <> None) by (intros E; apply H0; now rewrite E).
+    destruct (IH i' Hm1 Hm2 H0' H1) as [(r & alts & post & -> & ->)|(-> & w' & pre & r & alts & post & ->)].
+    + exists w, [], r, alts, post. reflexivity.
+    + exists w, (w' :: pre), r, alts, post. reflexivity.
+Qed.
+Lemma from_str_ok s t : relations_from_str s = Ok t -> parse_relaxed s false = Ok (t, 0).
+Proof.
+  unfold relations_from_str, parse_relaxed. destruct (RelParse.parse s false) as [[t' n]| | |]; try discriminate.
+  destruct n; [|discriminate]. now intros [= ->].
+Qed.
+(* Entry::from_str accepts s (the strict parser reports no error, the tree has exactly one entry):
+   s is one of the operand texts, and the handle points where parse_entry_runs says *)
+Theorem entry_text_cover s t k : relations_from_str s = Ok t ->
+  nth_index is_entry 0 (children t) = Some k -> nth_index is_entry 1 (children t) = None ->
+  exists x r alts, s = ptext_text x r alts /\ awf false (ptext_field x r alts) = true /\
+                   t = atree_of (ptext_field x r alts) /\ k = entry_at (p_lead x) (p_pre x).
+Proof.
+  intros Hp H0 H1. destruct (reader_image s false t (from_str_ok s t Hp)) as (g & Hw & <- & <- & _).
+  assert (Hsh : ashape false g = true) by (unfold awf in Hw; now apply andb_prop in Hw as [Hw _]).
+  unfold ashape in Hsh. apply andb_prop in Hsh as [Hsh Hs3]. apply andb_prop in Hsh as [_ Hs2].
+  destruct g as [lead first rest]. cbn [af_lead af_first af_rest] in *.
+  assert (E0 : nth_index is_entry 0 (aitems_elems first rest) <> None).
+  { intros E. unfold atree_of in H0. cbn [children af_lead af_first af_rest] in H0.
+    rewrite nth_index_skip_false, E in H0 by apply elems_not_entry. discriminate. }
+  assert (E1 : nth_index is_entry 1 (aitems_elems first rest) = None).
+  { unfold atree_of in H1. cbn [children af_lead af_first af_rest] in H1.
+    rewrite nth_index_skip_false in H1 by apply elems_not_entry. now apply option_map_none in H1. }
+  assert (X : exists pre r alts post, mk_afield lead first rest = entry_afield lead pre r alts post).
+  { destruct (items_one_entry rest first Hs2 Hs3 E0 E1) as [(r & alts & post & -> & ->)|(-> & w & pre & r & alts & post & ->)].
+    - now exists [], r, alts, post.
+    - now exists (w :: pre), r, alts, post. }
+  destruct X as (pre & r & alts & post & X). exists (mk_ptext lead pre post), r, alts.
+  unfold ptext_text, ptext_field. cbn [p_lead p_pre p_post]. rewrite <- X. split; [reflexivity|]. split; [exact Hw|]. split; [reflexivity|].
+  rewrite X in H0. destruct (entry_afield_positions lead pre r alts post) as (P0 & _). congruence.
+Qed.
+(* Relation::from_str accepts s: moreover the entry has exactly one relation *)
+Lemma arels_two r w r' alts last : nth_index is_relation 1 (arels_elems r ((w, r') :: alts) last) <> None.
+Proof.
+  cbn [arels_elems nth_index]. change (is_relation (arel_tree r false)) with true. cbn iota.
+  change (elems (arel_left r false) ++ Tok PIPE [124%N] :: elems w ++ arels_elems r' alts last)
+    with (elems (arel_left r false) ++ (Tok PIPE [124%N] :: elems w) ++ arels_elems r' alts last).
+  rewrite nth_index_skip_false by apply elems_not_relation.
+  rewrite nth_index_skip_false by (constructor; [reflexivity|apply elems_not_relation]).
+  destruct alts as [|[w2 r2] alts']; cbn [arels_elems nth_index];
+    match goal with |- context [is_relation (arel_tree ?a ?b)] => change (is_relation (arel_tree a b)) with true end; discriminate.
+Qed.
+Theorem relation_text_cover s t k e : relations_from_str s = Ok t ->
+  nth_index is_entry 0 (children t) = Some k -> nth_index is_entry 1 (children t) = None ->
+  nth_error (children t) k = Some e -> nth_index is_relation 1 (children e) = None ->
+  exists x r, s = ptext_text x r [] /\ awf false (ptext_field x r []) = true /\
+              t = atree_of (ptext_field x r []) /\ k = entry_at (p_lead x) (p_pre x) /\
+              nth_index is_relation 0 (children e) = Some 0.
+Proof.
+  intros Hp H0 H1 He Hr. destruct (entry_text_cover s t k Hp H0 H1) as (x & r & alts & -> & Hw & -> & ->).
+  unfold ptext_field in He. destruct (entry_afield_positions (p_lead x) (p_pre x) r alts (p_post x)) as (_ & _ & PE).
+  rewrite PE in He. injection He as <-. cbn [children] in *.
+  destruct alts as [|[w r'] alts']; [|now apply arels_two in Hr].
+  exists x, r. auto.
+Qed.
